@@ -6,6 +6,7 @@ connection_lost / eof_received over the ASH receiver model; batches of primitive
 import BV.Model.Stack.Reset
 import BV.Props.C04
 import BV.Proofs.Src.Uart
+import BV.Proofs.Src.UartReset
 namespace BV.Props.C11
 open BV.Reset BV.Ash BV.Gen.Ash
 
@@ -420,6 +421,59 @@ example : Gateway.connection_lost (some (.other 7))
 
 example : (Gateway.reset_received 11 { reset_future := some 0, futs := [.pending] }).2.futs = [.result] := by decide +kernel
 example : (Gateway.reset_received 2 { reset_future := some 0, futs := [.pending] }).2.trace = [.appEnterFailed 2] := by
+  decide +kernel
+
+/-! #### the coroutine `Gateway.reset` itself (BV/Gen/SrcUartReset.lean), against a script of what reaches the gateway while it is
+suspended - every input goes through the generated handlers above; the done-callback `_reset_cleanup` runs between loop iterations -/
+open BV.Src.UartReset BV.Proofs.Src.UartReset
+
+/-- **a fresh request sends RST once, first, and waits on a new future with a deadline of RESET_TIMEOUT = 5 s; a request while one
+is in progress sends nothing and shares that request's future** (source level) -/
+theorem c11_src_reset_request (g : Gateway) :
+    (g.reset_future = none → g.transport = some () →
+      Gateway.reset g = gAwait (some g.futs.length) (some 5) (requested g)) ∧
+    (∀ f, g.reset_future = some f → Gateway.reset g = gAwait (some f) none g) :=
+  ⟨reset_fresh g, reset_in_progress g⟩
+
+/-- **completes only on the software-reset acknowledgement** (source level): if a fresh `reset()` returns, an RSTACK with code
+0x0B reached the gateway while it waited - whatever else arrived (other reset codes, ERROR frames, data, a lost connection, EOF),
+in whatever grouping into loop iterations, and however the script would have ended the wait -/
+theorem c11_src_reset_only_ack (g : Gateway) (b : Bool) (hr : g.reset_future = none) (ht : g.transport = some ())
+    (h : (Gateway.reset g).1 = .ok b) :
+    ∃ w rest, g.script = w :: rest ∧ ∃ r ∈ w.rounds, GIn.rstack 11 ∈ r :=
+  reset_only_ack g b hr ht h
+
+/-- **the acknowledgement completes it; the clean-up has run before the caller goes on** (source level) -/
+theorem c11_src_reset_ack (g : Gateway) (more : List (List GIn)) (fin : GEnd) (rest : List GWait) (hr : g.reset_future = none)
+    (ht : g.transport = some ()) (hs : g.script = ⟨[.rstack 11] :: more, fin⟩ :: rest) (hc : g.cleanups = []) :
+    Gateway.reset g = (.ok true,
+      { requested g with script := rest, futs := g.futs ++ [.result], reset_future := none, cleanups := [] }) :=
+  reset_ack g more fin rest hr ht hs hc
+
+/-- **no acknowledgement: TimeoutError, and the request is gone** (source level) - `_reset_future` is clear again, so the next
+`reset()` is a fresh request that sends RST again (an abandoned request does not block the next one); any other reset code in
+between is reported to the application as an NCP failure and does not complete the request -/
+theorem c11_src_reset_timeout (g : Gateway) (rest : List GWait) (hr : g.reset_future = none) (ht : g.transport = some ())
+    (hc : g.cleanups = []) :
+    (g.script = ⟨[], .deadline⟩ :: rest →
+      Gateway.reset g = (.error (.raised "TimeoutError"),
+        { requested g with script := rest, futs := g.futs ++ [.cancelled], reset_future := none, cleanups := [] })) ∧
+    (∀ code, code ≠ 11 → g.script = ⟨[[.rstack code]], .deadline⟩ :: rest →
+      Gateway.reset g = (.error (.raised "TimeoutError"),
+        { requested g with script := rest, futs := g.futs ++ [.cancelled], reset_future := none, cleanups := [],
+                           trace := g.trace ++ [.transportSendReset, .appEnterFailed code] })) :=
+  ⟨fun hs => reset_timeout g rest hr ht hs hc, fun code hcode hs => reset_other_code g code rest hr ht hs hc hcode⟩
+
+/-- **a lost connection ends the request at once with the reason** (source level) -/
+theorem c11_src_reset_lost (g : Gateway) (exc : Option ExcVal) (more : List (List GIn)) (fin : GEnd) (rest : List GWait)
+    (hr : g.reset_future = none) (ht : g.transport = some ()) (hsf : g.startup_reset_future = none)
+    (hcd : g.connection_done_future = none) (hs : g.script = ⟨[.lost exc] :: more, fin⟩ :: rest) (hc : g.cleanups = []) :
+    (Gateway.reset g).1 = .error (.raised (excCls (exc.getD .connectionReset))) ∧ (Gateway.reset g).2.reset_future = none :=
+  reset_lost g exc more fin rest hr ht hsf hcd hs hc
+
+/-- non-vacuity: a fresh gateway, the acknowledgement in the second loop iteration after an ERROR frame -/
+example : (Gateway.reset { script := [⟨[[.error 0x51], [.rstack 11]], .deadline⟩] }).1 = .ok true := by decide +kernel
+example : (Gateway.reset { script := [⟨[[.error 0x51], [.rstack 2]], .deadline⟩] }).1 = .error (.raised "TimeoutError") := by
   decide +kernel
 
 end Src
